@@ -730,6 +730,15 @@ func (ex *Exec) applyContract(st *State, fn *types.Func, fs *FuncSpec, u *Unit, 
 	for _, m := range fs.Modifies {
 		ex.applyModifies(st, cs, m, u)
 	}
+	if u != nil && !fs.Pure {
+		if fs.AssignsNone {
+			// checked on the callee's side (assigns-none obligation)
+		} else if len(fs.Modifies) == 0 {
+			ex.W.Trusted["frame (unchecked): "+key+" is assumed to change nothing its callers can see except objects it allocates (its contract has no modifies clause)"] = true
+		} else {
+			ex.W.Trusted["frame (unchecked): "+key+" is assumed to change only what its contract's modifies clause lists ("+strings.Join(fs.Modifies, "; ")+") and objects it allocates"] = true
+		}
+	}
 	if !fs.Pure {
 		// the callee may allocate: objects it returns may be new (without this
 		// the results were forced to pre-date the call, which contradicts any
